@@ -28,7 +28,9 @@ ASSUMPTIONS = [
 TRUSTED_BASE = [
     "Coq 8.16.1 kernel, vm_compute (cases evaluation, refutation witnesses)",
     "axioms: none (Print Assumptions: closed under the global context)",
-    "go2coq ClientGen (sendRecv: registers before send / withdraws / does not recycle a withdrawn response; handleOne re-check; releaseFID policy; Get/Put sites)",
+    "go2coq ClientGen (sendRecv: registers before send / withdraws / does not recycle a withdrawn response; handleOne re-check; waitAndRecv token hand-over read from the "
+    "statement structure (paths through the token branch: waitandrecv_rechecks_done); releaseFID policy (classified, not text-compared); Get/Put sites; whole bodies as reviewed text)",
+    "props/C10.py to_case (trace strings emitted by the harness are model actions: the claim that a forced schedule IS that trace rests on the harness's events), helpers vhReadFrame/vhFrame",
     "hand-written models Client/Pool.v, Client/Mux.v, Client/Fids.v, tied by harness/p9/c10_test.go + Client/MuxCases.v",
 ]
 
@@ -36,7 +38,7 @@ ITEM = {"reply": "SReply %d", "rlerror": "SReply %d", "unknown": "SUnknown", "wr
 OBS = {"ok": "OOk", "err": "OErr", "foreign": "OForeign", "hang": "OHang", "none": "OHang", "panic": "OPanic"}
 
 
-FIDEV = {"ok": "FBind BOk", "refused": "FBind BRefused", "lost": "FBind (BLost true)"}
+FIDEV = {"ok": "FBind BOk", "refused": "FBind BRefused", "lost": "FBind (BLost true)", "lost-wrong": "FBind (BLost true)"}
 
 
 def to_case(o):
@@ -104,7 +106,9 @@ def run(ctx):
         "rule": "pool: every disciplined Get/Put sequence of length 6 (8 thorough) on ranges [1,4), up to NOTAG, up to NOFID, up to 2^64-1, empty range; "
                 "client: every reply permutation of batches of 1..4 (5 thorough) in-flight calls + a later call; each fault kind (unknown tag, wrong type, garbage header, "
                 "close, short frame) after j of k replies for all j<=k<=3 + a later call; 16/33/64 goroutines in random reply order; a failing send at each "
-                "position of a session followed by an unknown-tag frame and three more calls; distinct = distinct records",
+                "position of a session followed by an unknown-tag frame and three more calls; forced schedules (events only): reply during a failing send, reply before send returns, "
+                "wake-up of a parked waiter, late waiter with reply delivered and token free (8 rounds: both select cases ready); fid scripts with refusals, replies under an unknown tag "
+                "and replies of the wrong type after the server bound the fid; distinct = distinct records",
         "correspondence": {"cases": len(obs), "mismatches": nm, "by_kind": kinds},
         "samples": [next(o for o in obs if o["kind"] == "trace"), next(o for o in obs if o["kind"] == "fids"),
                     next(o for o in obs if o["kind"] == "pool" and len(o["ops"]) > 3),
